@@ -64,7 +64,10 @@ class ScaleMixtureNormal(CallableModel):
         )
 
     def _sample_shape(self) -> Size:
-        return self.x.tensor.shape[:-1]
+        return max(
+            [parameter.shape[:-1] for parameter in self._parameters.values()],
+            key=len,
+        )
 
     def handle_model_changed(self, model, obj, index) -> None:
         pass
